@@ -63,6 +63,9 @@ Spec == Init /\ [][Next]_vars
 
 Result == LET r == Resolve(raw) IN r \cup {DirStub(p) : p \in MissingDirs(r)}
 
+\* CONSTRAINT for the "inokey" guard run: only sets that hold the hard link pair of the second device
+SecondDevicePair == Cardinality({e \in cset : e.dev = 2}) = 2
+
 LinkTargetKnown == phase # "error"
 RoundTrip == phase = "done" => Equivalent(Result, Expected(cset), MissingDirs(Resolve(cset)))
 ReaderIsReadArchive == phase = "done" => Result = ReadArchive(arch)
